@@ -1,10 +1,10 @@
 SPECIFICATION Spec
 CONSTANTS
-  Alphabet = {"lo", "up", "sp", "sl", "dq", "bs", "d3", "l4", "s4", "iv"}
+  Alphabet = {"lo", "up", "sp", "sl", "dq", "bs", "d3", "l4", "s4", "iv", "cr", "lf", "z0"}
   MaxLen = 2
   MinLen = 0
   Shapes = {"tags", "tagsmulti", "nested", "nestedmulti"}
   LimMode = "all"
-  Firsts = {"lo", "up", "sp", "sl", "dq", "bs", "d3", "l4", "s4", "iv"}
+  Firsts = {"lo", "up", "sp", "sl", "dq", "bs", "d3", "l4", "s4", "iv", "cr", "lf", "z0"}
   Sample = FALSE
 INVARIANT CheckAndEmit
